@@ -6,7 +6,7 @@ import Drivers.Util
 /-! Line-protocol driver for the stream cursor (C12, C19):
 
   `cur <unsorted> <hex>`   current code:  `load <class>` | `end <class> steps=<n> offs=<o1,o2,…>` |
-                                           `oob <k>` | `ub <k>` | `hang <n>`
+                                           `oob <k> <offset>` | `ub <k>` | `hang <n>`
   `fix <unsorted> <hex>`   repaired code, same output format
   `guard <hex>`            `guarded 0|1` (the hypothesis of the `_partial` theorems)
   `ej <hex> <o1> <o2>`     emu_ev chained on two event offsets: `ej <is_jumbo cur> <is_jumbo fixed>`
@@ -47,10 +47,11 @@ def stepEvts (fixed : Bool) (buf : List Nat) (c : Cur) : List Evt :=
     let e2 := e1 ++ sizeEvts buf off1
     if off1 + evSizeC g0 buf off1 > size then e2 else e2 ++ [.rd (off1 + 4, 8)]
 
-def firstHazard (size : Nat) : List Evt → Option String
+/-- (kind, detail): `ub` or `oob` with the offset of the access -/
+def firstHazard (size : Nat) : List Evt → Option (String × String)
   | [] => none
-  | .ub :: _ => some "ub"
-  | .rd r :: rest => if decide (Read.inBounds size r) then firstHazard size rest else some "oob"
+  | .ub :: _ => some ("ub", "")
+  | .rd r :: rest => if decide (Read.inBounds size r) then firstHazard size rest else some ("oob", s!" {r.1}")
 
 def errName : Err → String
   | .inactive => "inactive" | .exceeds => "exceeds" | .incomplete => "incomplete"
@@ -67,7 +68,7 @@ def drive (fixed : Bool) (buf : List Nat) : Nat → Nat → Cur → List Int →
   | 0, k, _, _ => s!"hang {k}"
   | fuel + 1, k, c, offs =>
     match firstHazard buf.length (stepEvts fixed buf c) with
-    | some h => s!"{h} {k}"
+    | some (h, det) => s!"{h} {k}{det}"
     | none =>
       match (if fixed then Fixed.streamStep g0 buf c else streamStep g0 buf c) with
       | (.ok, c', _) => drive fixed buf fuel (k + 1) c' (c'.offset :: offs)
